@@ -30,11 +30,12 @@ inductive Tree where
   | leaf
   | node (l : Tree) (k : Nat) (r : Tree)
 
-/-- search-tree membership (structural recursion; reduces in the kernel). No ordering invariant is
-    needed for soundness: `mem` only ever answers `true` on a key that is in the tree. -/
+/-- search-tree membership (structural recursion; reduces in the kernel, `Nat.blt` on literals is
+    evaluated natively). No ordering invariant is needed for soundness: `mem` only ever answers `true`
+    on a key that is in the tree. -/
 def Tree.mem : Tree → Nat → Bool
   | .leaf, _ => false
-  | .node l k r, x => if x < k then l.mem x else if k < x then r.mem x else true
+  | .node l k r, x => bif Nat.blt x k then l.mem x else bif Nat.blt k x then r.mem x else true
 
 def Tree.all (p : Nat → Bool) : Tree → Bool
   | .leaf => true
@@ -50,24 +51,38 @@ theorem Tree.all_mem {p : Nat → Bool} : ∀ {t : Tree} {x : Nat},
   | .node l k r, x, ha, hm => by
     simp only [Tree.all, Bool.and_eq_true] at ha
     unfold Tree.mem at hm
-    by_cases h1 : x < k
-    · rw [if_pos h1] at hm; exact Tree.all_mem ha.1 hm
-    · rw [if_neg h1] at hm
-      by_cases h2 : k < x
-      · rw [if_pos h2] at hm; exact Tree.all_mem ha.2.2 hm
-      · have : x = k := by omega
+    cases h1 : Nat.blt x k with
+    | true => rw [h1, cond_true] at hm; exact Tree.all_mem ha.1 hm
+    | false =>
+      rw [h1, cond_false] at hm
+      cases h2 : Nat.blt k x with
+      | true => rw [h2, cond_true] at hm; exact Tree.all_mem ha.2.2 hm
+      | false =>
+        have e1 : ¬ x < k := fun hh => by rw [← Nat.blt_eq, h1] at hh; cases hh
+        have e2 : ¬ k < x := fun hh => by rw [← Nat.blt_eq, h2] at hh; cases hh
+        have : x = k := by omega
         rw [this]; exact ha.2.1
 
-/-- states packed into `Nat` codes. Nothing is assumed about the pair: see `okCode`. -/
+/-- states packed into `Nat` codes. `wf` is a cheap boolean range check under which the round trip
+    `decode (code s) = s` has been PROVED; the certificate check evaluates `wf` on every state it
+    meets (so the round trip is available exactly where the induction needs it, and the kernel never
+    has to compare two large structures). -/
 structure Codec (σ : Type) where
   code : σ → Nat
   decode : Nat → σ
+  wf : σ → Bool
+  roundtrip : ∀ s, wf s = true → decode (code s) = s
 
-variable {σ : Type} [DecidableEq σ]
+variable {σ : Type}
 
-/-- the code of `t` is in the certificate and decodes back to `t`. -/
+/-- the code of `t` is in the certificate and `t` is within the range of the codec. -/
 def okCode (C : Codec σ) (R : Tree) (t : σ) : Bool :=
-  R.mem (C.code t) && decide (C.decode (C.code t) = t)
+  R.mem (C.code t) && C.wf t
+
+theorem okCode_spec {C : Codec σ} {R : Tree} {t : σ} (h : okCode C R t = true) :
+    R.mem (C.code t) = true ∧ C.decode (C.code t) = t := by
+  simp only [okCode, Bool.and_eq_true] at h
+  exact ⟨h.1, C.roundtrip _ h.2⟩
 
 /-- the certificate contains the initial state and is closed under the successor function. -/
 def closedUnder (S : Sys σ) (C : Codec σ) (R : Tree) : Bool :=
@@ -81,16 +96,11 @@ theorem cert_sound {S : Sys σ} {C : Codec σ} {R : Tree} (h : closedUnder S C R
     {s : σ} (hs : Reachable S s) : R.mem (C.code s) = true ∧ C.decode (C.code s) = s := by
   simp only [closedUnder, Bool.and_eq_true] at h
   induction hs with
-  | init =>
-    have := h.1
-    simp only [okCode, Bool.and_eq_true, decide_eq_true_eq] at this
-    exact this
+  | init => exact okCode_spec h.1
   | step _ ht ih =>
     have h2 := Tree.all_mem h.2 ih.1
     rw [ih.2, List.all_eq_true] at h2
-    have := h2 _ ht
-    simp only [okCode, Bool.and_eq_true, decide_eq_true_eq] at this
-    exact this
+    exact okCode_spec (h2 _ ht)
 
 theorem safe_of_cert {S : Sys σ} {C : Codec σ} {R : Tree} {bad : σ → Bool}
     (h : closedUnder S C R = true) (hb : safeOn C bad R = true)
@@ -110,7 +120,6 @@ def runTrace (S : Sys σ) : List Nat → σ → Option σ
     | some t => runTrace S rest t
     | none => none
 
-omit [DecidableEq σ] in
 theorem reachable_of_runTrace {S : Sys σ} : ∀ (tr : List Nat) {s t : σ},
     Reachable S s → runTrace S tr s = some t → Reachable S t
   | [], _, _, hs, h => by
@@ -124,7 +133,6 @@ theorem reachable_of_runTrace {S : Sys σ} : ∀ (tr : List Nat) {s t : σ},
       rw [hi] at h
       exact reachable_of_runTrace rest (Reachable.step hs (List.mem_of_getElem? hi)) h
 
-omit [DecidableEq σ] in
 theorem reachable_of_trace {S : Sys σ} (tr : List Nat) {t : σ}
     (h : runTrace S tr S.init = some t) : Reachable S t :=
   reachable_of_runTrace tr Reachable.init h
